@@ -199,7 +199,7 @@ pub fn handle(line: &str) -> String {
     }
     let (errs, first) = ca::errors();
     let detail = match first {
-        Some(e) if errs > 0 => format!(":{}", e.what),
+        Some(e) if errs > 0 => format!(":{}", e.label()),
         _ => String::new(),
     };
     out.push(format!("end:{}:{errs}{detail}", if fl.is_empty() { "-" } else { &fl }));
